@@ -213,7 +213,18 @@ class Translator:
 
     @staticmethod
     def seq(cmds):
-        cmds = [c for c in cmds if c != ["Skip"]]
+        flat = []
+
+        def add(c):  # statement lists are right-nested: Seq s1 (Seq s2 (... sn))
+            if c[0] == "Seq":
+                add(c[1])
+                add(c[2])
+            elif c != ["Skip"]:
+                flat.append(c)
+
+        for c in cmds:
+            add(c)
+        cmds = flat
         if not cmds:
             return ["Skip"]
         out = cmds[-1]
@@ -323,6 +334,12 @@ class Translator:
                 and isinstance(f.value, (ast.Attribute, ast.Subscript)):
             return [["Mut", dotted(f.value)]]
         nm = self.callee_name(call)
+        # module-level function of the same module (e.g. _read_neuroml2): summarised after an effect check
+        if isinstance(f, ast.Name) and f.id in module(env.rel).funcs and f.id not in [e[3] for e in ENTRIES if e[2] is None]:
+            eff = effects_of_defs([(env.rel, None, module(env.rel).funcs[f.id])], self_is_doc=False, seen=set())
+            if eff:
+                self.notes.append("callee %s: %s" % (f.id, "; ".join(sorted(eff))))
+                return [["Mut", "callee %s: %s" % (f.id, sorted(eff)[0])], ["Op", self.label(env, stmt, "Op", nm), nm]]
         if self.is_file_call(env, call):
             return [["Op", self.label(env, stmt, "Op", nm), nm]]
         return [["MayRaise", self.label(env, stmt, "MayRaise", nm), "Exception"]]
@@ -587,7 +604,7 @@ class Translator:
 
 
 def main():
-    out = {"entries": [], "untranslatable": []}
+    out = {"entries": [], "untranslatable": [], "expected": [e[0] for e in ENTRIES]}
     for e in ENTRIES:
         try:
             out["entries"].append(Translator(e).run())
